@@ -154,3 +154,21 @@ PROPS["C12"] = {
         Leg("fault", "c12", "^TestFault$", checks=(8000, 30000), shards=(2, 16), tests=["fault"]),
     ],
 }
+
+PROPS["C20"] = {
+    "title": "Message-type classification is total and consistent across the library",
+    "level": "exploration",
+    "exhaustive": True,
+    "technique": "complete enumeration of all 4096 message types and both sentinels against an independent classification table (differential between the library's own classifiers)",
+    "level_text": ("Exhaustive enumeration of the finite domain (4098 values): every classifier, the timestamp extraction, the three decoder families' accept "
+                   "lists, the Analyse dispatch and the title table are compared with one independent arithmetic table (MSM4 = 1074+10i, MSM7 = 1077+10i). "
+                   "The domain is finite and small, so the run is complete for it."),
+    "rule": ("Every type -2..4095 is one case; for types >= 0 a CRC-valid 40-byte frame with station 5, timestamp 1000 and a zero body (well-formed empty-mask MSM "
+             "header; long enough for 1005/1006) is pushed through GetMessage, Analyse, String (both log levels) and each typed decoder. Every case is distinct and "
+             "non-trivial (distinct = distinct type)."),
+    "assumptions": ["the independent table in c20_test.go transcribes the property statement", "Go toolchain"],
+    "min_evals": {"quick": 4098, "thorough": 4098},
+    "legs": [
+        Leg("types", "c20", "^TestTypes$", engine="enumerate", rapid=False, shards=(1, 1), tests=["types"]),
+    ],
+}
